@@ -190,6 +190,9 @@ def match_known(known, src, outcome):
     return None
 
 
+# a finite numeric literal of magnitude >= 1e6 (7+ digits, or an exponent of 6 or more)
+HUGE_LITERAL_RE = re.compile(r"\d[\d_]{6,}|\d(?:\.\d*)?[eE]\+?(?:[6-9]|[1-9]\d+)")
+
 RECURSION_RE = re.compile(r"fn\s+([^\s(<]+)")
 
 
@@ -301,7 +304,7 @@ def extreme_literals(rng):
            "use " + "a::" * 500 + "b", "use prelude\nuse prelude", "@" * 100, "@aliases(" * 50, "#" * 10000, "\n" * 10000,
            "let x: " + "Length^" * 100 + "2 = 1", "fn f<" + "A, " * 300 + "B>(x: A) = x", "fn f(x: D^(1/0)) = x",
            "dimension Z = Length^(1/0)", "unit q = 1/0", "let 🙂 = 1", "1 ​+ 1", "﻿1", "1 +\x00 1", "１２３", "1٠",
-           "1e1_", "5 % 0", "mod(5, 0)", "1 m % 0 m", "bit_and(1e30, 2)" , "gcd(1e30, 7)", "lcm(2^62, 3^39)", "binom(1e6, 5e5)",
+           "1e1_", "5 % 0", "mod(5, 0)", "1 m % 0 m", "bit_and(1e30, 2)" , "gcd(1e30, 7)", "lcm(2^62, 3^39)", "binom(1e4, 5e3)",
            "2^0.5^0.5^0.5^0.5^0.5^0.5^0.5^0.5", "m^(1/3)^(1/3)^(1/3)^(1/3)^(1/3)^(1/3)", "cbrt(" * 90 + "m^3" + ")" * 90,
            "quantity_cast(1, m^1e20)", "1 m^(2^63) + 1 m^(2^63)", "1 m^(2^64)/ 1 m^(2^64)", "(1 m^(2^100)) * (1 m^(2^100))",
            "(1 m^(1/2^100)) * (1 m^(1/3^70))", "1 m^(1/2^100) + 1 m^(1/3^70)", "sqrt(m^(2^126))", "sqr(m^(2^126))", "m^(2^126) * m^(2^126)"]
@@ -399,6 +402,7 @@ def run(chk):
     outcome_hist = collections.Counter()
     fails = []
     excluded_recursion = 0
+    excluded_huge_work = 0
     slow = []
     for (m, s, family), o in zip(cases, outs):
         fam[family] += 1
@@ -414,6 +418,10 @@ def run(chk):
             continue
         if site_of(o)[0] in ("hang", "abort") and unbounded_recursion_possible(s):
             excluded_recursion += 1
+            continue
+        if site_of(o)[0] == "hang" and HUGE_LITERAL_RE.search(s):
+            # e.g. falling_factorial(20, 1e30): the work asked for is proportional to a huge finite literal
+            excluded_huge_work += 1
             continue
         fails.append((m, s, family, o))
 
@@ -461,11 +469,13 @@ def run(chk):
         "families": dict(fam), "outcomes": dict(outcome_hist),
         "failures_total": len(fails), "failures_matched_by_open_findings": sum(hits.values()),
         "excluded_unbounded_recursion": excluded_recursion,
+        "excluded_hangs_with_huge_finite_literal": excluded_huge_work,
         "slowest_ms": sorted(slow, reverse=True)[:3],
         "samples": [{"mode": cases[i][0], "source": cases[i][1][:200], "outcome": outs[i]}
                     for i in (0, len(corpus) + 3, len(cases) // 2, len(cases) - 1)],
     })
     chk.assumptions += ["inputs that define (mutually) recursive functions are excluded from hang/stack-overflow reporting, as the property excludes unbounded recursion",
+                        "a watchdog hit on an input containing a finite literal >= 1e6 is not reported (compute-bound by construction, e.g. falling_factorial(20, 1e30)); panics and aborts on such inputs are",
                         "watchdog %d ms per input" % CASE_TIMEOUT_MS]
 
 
